@@ -728,6 +728,8 @@ class Interp:
             if name == "__class__":
                 return v.cls
             raise PyExc(self.make_exc("AttributeError", f"{v!r} has no attribute {name}"))
+        if isinstance(v, Opaque) and v.kind == "external":
+            return self.external(f"{v.name}.{name}")
         if isinstance(v, Opaque):
             return self.world.getattr(self, v, name)
         if isinstance(v, ModuleVal):
